@@ -207,6 +207,72 @@ def cursor(ctx: Ctx, rep: Report) -> None:
             'does not address the parameter through '
             'get_param_location(param_index)', key='via-location',
         )
+    param_index_spaces(ctx, rep)
+
+
+def param_index_spaces(ctx: Ctx, rep: Report) -> None:
+    """IXT for parameter indices.  `get_param_location(g)` translates a
+    circuit-wide parameter index g into (cycle, qudit, l) with l local to
+    the operation.  The two index spaces must not be mixed: l may only
+    index an operation's own parameter vector (`<op>.params[l]`, a copy of
+    it, the key of with_frozen_params), and only a circuit-wide index may
+    go to the Circuit methods that take one (those with a parameter called
+    `param_index`).  For the first operation both numbers coincide, which
+    is why a mix-up survives small tests."""
+    X = 'IXT'
+    circ = ctx.cls(f'{CIRC}:Circuit')
+    global_sinks = {
+        name for name, m in circ.methods.items()
+        if 'param_index' in m.params}
+    if 'get_param_location' not in global_sinks:
+        raise AnalysisError('get_param_location(param_index) vanished')
+    n = 0
+    for name, f in sorted(circ.methods.items()):
+        unpack = [
+            s for s in ast.walk(f.node) if isinstance(s, ast.Assign)
+            and isinstance(s.value, ast.Call)
+            and norm(s.value.func) == 'self.get_param_location'
+            and isinstance(s.targets[0], ast.Tuple)
+            and len(s.targets[0].elts) == 3
+            and isinstance(s.targets[0].elts[2], ast.Name)]
+        for u in unpack:
+            n += 1
+            rep.count()
+            local = u.targets[0].elts[2].id
+            glob = {x.id for a in u.value.args for x in ast.walk(a)
+                    if isinstance(x, ast.Name)}
+            bad = []
+            for c in ast.walk(f.node):
+                if isinstance(c, ast.Call) and isinstance(
+                        c.func, ast.Attribute) and norm(
+                        c.func.value) == 'self' and (
+                        c.func.attr in global_sinks) and c is not u.value:
+                    if any(isinstance(x, ast.Name) and x.id == local
+                           for a in c.args[:1] + [
+                               k.value for k in c.keywords
+                               if k.arg == 'param_index']
+                           for x in ast.walk(a)):
+                        bad.append(
+                            f'line {c.lineno}: `{norm(c)}` passes the '
+                            f'operation-local index `{local}` where a '
+                            'circuit-wide parameter index is expected')
+                if isinstance(c, ast.Subscript) and isinstance(
+                        c.value, ast.Attribute) and c.value.attr == 'params' \
+                        and norm(c.value.value) != 'self':
+                    if any(isinstance(x, ast.Name) and x.id in glob
+                           for x in ast.walk(c.slice)):
+                        bad.append(
+                            f'line {c.lineno}: `{norm(c)}` indexes an '
+                            'operation\'s parameters with the circuit-wide '
+                            'index')
+            rep.check(
+                not bad, X, f'Circuit.{name}:param-index', f.path, u.lineno,
+                f'`{local}` (operation-local) and {sorted(glob)} '
+                '(circuit-wide) are kept apart',
+                '; '.join(bad) + ': for every operation but the first the '
+                'wrong parameter is read or frozen', key='spaces',
+            )
+    rep.floor(X, n, 3, 'get_param_location call sites in Circuit')
 
 
 def _normalise_tensor(e: ast.AST, which: str) -> str:
